@@ -20,11 +20,29 @@ package ring
 //@ pred takesOther(t InstanceDesc, o InstanceDesc) = o.Timestamp > t.Timestamp || (o.Timestamp == t.Timestamp && t.State != LEFT && o.State == LEFT)
 //@
 //@ # normalizeIngestersMap / resolveConflicts: only their frames are assumed here (token lists may change, nothing else)
-//@ assume func normalizeIngestersMap
-//@   ensures forall n string :: (in(n, inputRing.Ingesters) <==> in(n, old(inputRing).Ingesters)) && (in(n, inputRing.Ingesters) ==> fieldsEq(inputRing.Ingesters[n], old(inputRing).Ingesters[n]))
-//@   ensures forall n string :: in(n, inputRing.Ingesters) && inputRing.Ingesters[n].State == LEFT ==> len(inputRing.Ingesters[n].Tokens) == 0
-//@   ensures forall n string :: in(n, inputRing.Ingesters) ==> sortedStrict(inputRing.Ingesters[n].Tokens)
+//@ func Tokens.Less
+//@   property C05
+//@   requires 0 <= i && i < len(t) && 0 <= j && j < len(t)
+//@   ensures result <==> t[i] < t[j]
+//@   pure
+//@
+//@ func normalizeIngestersMap
+//@   property C05 C03
+//@   ensures frame: forall n string :: (in(n, inputRing.Ingesters) <==> in(n, old(inputRing).Ingesters)) && (in(n, inputRing.Ingesters) ==> fieldsEq(inputRing.Ingesters[n], old(inputRing).Ingesters[n]))
+//@   ensures left: forall n string :: in(n, inputRing.Ingesters) && inputRing.Ingesters[n].State == LEFT ==> len(inputRing.Ingesters[n].Tokens) == 0
+//@   ensures sorted: forall n string :: in(n, inputRing.Ingesters) ==> sortedStrict(inputRing.Ingesters[n].Tokens)
 //@   ensures !isnil(inputRing.Ingesters) || isnil(old(inputRing).Ingesters)
+//@   loop 0 invariant inputRing != nil && isnil(inputRing.Ingesters) == isnil($coll)
+//@   loop 0 invariant forall n string :: (in(n, inputRing.Ingesters) <==> in(n, $coll)) && (in(n, $coll) ==> fieldsEq(inputRing.Ingesters[n], $coll[n]))
+//@   loop 0 invariant forall n string :: in(n, $coll) && !$visited[n] ==> inputRing.Ingesters[n] == $coll[n]
+//@   loop 0 invariant forall n string :: $visited[n] ==> sortedStrict(inputRing.Ingesters[n].Tokens) && (inputRing.Ingesters[n].State == LEFT ==> len(inputRing.Ingesters[n].Tokens) == 0)
+//@   loop 1 invariant 1 <= ix && ix <= len(ing.Tokens) && sortedNS(ing.Tokens) && prev == ing.Tokens[ix-1]
+//@   loop 1 invariant forall a, b int :: 0 <= a && a < b && b < ix ==> ing.Tokens[a] < ing.Tokens[b]
+//@   loop 1 invariant fieldsEq(ing, $coll0[$k0]) && inputRing != nil && isnil(inputRing.Ingesters) == isnil($coll0)
+//@   loop 1 invariant forall n string :: (in(n, inputRing.Ingesters) <==> in(n, $coll0)) && (in(n, $coll0) ==> fieldsEq(inputRing.Ingesters[n], $coll0[n]))
+//@   loop 1 invariant forall n string :: in(n, $coll0) && !$visited0[n] ==> inputRing.Ingesters[n] == $coll0[n]
+//@   loop 1 invariant forall n string :: $visited0[n] && n != $k0 ==> sortedStrict(inputRing.Ingesters[n].Tokens) && (inputRing.Ingesters[n].State == LEFT ==> len(inputRing.Ingesters[n].Tokens) == 0)
+//@   loop 1 invariant ing.State != LEFT && $visited0[$k0] && in($k0, $coll0)
 //@ assume func resolveConflicts
 //@   ensures forall n string :: (in(n, normalizedIngesters) <==> in(n, old(normalizedIngesters))) && (in(n, normalizedIngesters) ==> fieldsEq(normalizedIngesters[n], old(normalizedIngesters)[n]))
 //@   ensures isnil(normalizedIngesters) == isnil(old(normalizedIngesters))
